@@ -1,24 +1,29 @@
 #!/bin/sh
 # usage: tools/try_seed.sh <seed-dir> <ID> [tier]
-# Applies the seeded patch to /repo, runs the check in a scratch cache
-# (work tree copied, code cache hard-linked from the main cache so that
-# unchanged generated modules are not recompiled), reverts /repo.
+# Applies the seeded patch to a scratch copy of /repo's HEAD (never to /repo
+# itself), and runs the check against that copy (VERIF_REPO) in a scratch
+# cache: work tree copied from the main cache, code cache hard-linked so
+# that unchanged generated modules are not recompiled.  Everything scratch
+# is removed afterwards.
 set -u
 d="$1"; id="$2"; tier="${3:-quick}"
 MAIN=/var/tmp/pysph-verif
 SEED=/var/tmp/pysph-verif-seed
-cd /repo || exit 2
-if ! git diff --quiet; then echo "/repo dirty"; exit 2; fi
-git apply -v "$d/patch.diff" 2>&1 | grep -i "offset" && echo "WARNING: hunk applied with offset - check it landed in the intended function"; git diff --quiet && { echo "patch does not apply"; exit 2; }
-rm -rf "$SEED"; mkdir -p "$SEED"
-for w in "$MAIN"/work-*; do [ -d "$w" ] && cp -a "$w" "$SEED/"; done
+SRC=/var/tmp/pysph-seed-repo
+rm -rf "$SRC" "$SEED"; mkdir -p "$SRC" "$SEED"
+git -C /repo archive HEAD | tar -x -C "$SRC" || exit 2
+( cd "$SRC" && git init -q . && git apply -v "$d/patch.diff" 2>&1 | grep -i "offset" && echo "WARNING: hunk applied with offset - check it landed in the intended function" )
+( cd "$SRC" && git apply --check -R "$d/patch.diff" 2>/dev/null ) || { echo "patch does not apply"; rm -rf "$SRC" "$SEED"; exit 2; }
+rm -rf "$SRC/.git"
+key() { /venv/bin/python -c "import hashlib,os,sys;print(hashlib.md5(os.path.abspath(sys.argv[1]).encode()).hexdigest()[:8])" "$1"; }
+mk=$(key /repo); sk=$(key "$SRC")
+[ -d "$MAIN/work-$mk" ] && cp -a "$MAIN/work-$mk" "$SEED/work-$sk"
 h=$(ls -dt "$MAIN"/home-[0-9a-f]* 2>/dev/null | head -1)
 [ -n "$h" ] && cp -al "$h" "$SEED/"
 cd /verif
-VERIF_CACHE=$SEED VERIF_NOEVIDENCE=1 bin/check "$id" --tier "$tier" > /tmp/try_seed_$$.log 2>&1
+VERIF_REPO=$SRC VERIF_CACHE=$SEED VERIF_NOEVIDENCE=1 bin/check "$id" --tier "$tier" > /tmp/try_seed_$$.log 2>&1
 rc=$?
-cd /repo && git checkout -- .
-grep -E "^VIOLATION|^KNOWN|tier=" /tmp/try_seed_$$.log | head -8
+grep -E "^VIOLATION|^KNOWN|tier=" /tmp/try_seed_$$.log | head -12
 echo "rc=$rc (log /tmp/try_seed_$$.log)"
-rm -rf "$SEED"
+rm -rf "$SEED" "$SRC"
 exit $rc
